@@ -959,7 +959,9 @@ def check_C18(tier, seed):
     fams = [("R3s", FAMILIES["R3s"], 6, 3), ("D2s", fam((3, 3, 1), 2, False, 1, 2, order="fixed"), 5, 2),
             ("P2s", fam((3, 3, 1), 2, True, 1, 2, order="fixed"), 5, 2)]
     if tier == "thorough":
-        fams = [("R3a", FAMILIES["R3a"], 7, 4), ("P3b", FAMILIES["P3b"], 7, 3), ("P2a", FAMILIES["P2a"], 7, 3), ("D2a", FAMILIES["D2a"], 7, 4)]
+        # (R3a with every order of up to 7 removed vertices did not finish in 50 min on a loaded machine: 7 for n <= 2, 6 for n <= 3)
+        fams = [("R3s", FAMILIES["R3s"], 7, 4), ("R3a", FAMILIES["R3a"], 6, 3), ("P3b", FAMILIES["P3b"], 7, 3), ("P2a", FAMILIES["P2a"], 7, 3),
+                ("D2a", FAMILIES["D2a"], 7, 4)]
     cases_file = os.path.join(OUT, "C18_clipcases.ndjson")
     sim_inputs_file = None
     with open(cases_file, "w") as cf:
@@ -971,7 +973,7 @@ def check_C18(tier, seed):
                           MaxExhaustive=maxex, AllRotUpTo=allrot)
             write_cfg(cfg, spec="ISpec", constants=consts,
                       invariants=["TypeOK", "NoDegenerate", "Closed", "Euler", "Oriented", "ImplOK", "CycleCapacity", "EmitClips"])
-            r = run_tlc("mc/MCVCellImpl.tla", cfg, tag_sink={"CLIP": cf}, tags=("CLIP",), env_extra={"VV_INPUTS": "/dev/null"}, timeout=3000)
+            r = run_tlc("mc/MCVCellImpl.tla", cfg, tag_sink={"CLIP": cf}, tags=("CLIP",), env_extra={"VV_INPUTS": "/dev/null"}, timeout=6000)
             if r.violation:
                 raise ToolError("VCellImpl violates its own invariant (%s): %s\n%s" % (name, r.violation, r.raw_tail[-2500:]))
             out.coverage["states"] = out.coverage.get("states", 0) + r.distinct
